@@ -229,19 +229,32 @@ def stress(seed, steps):
         while isinstance(node, BDDNonTerminalNode):
             node = node.high if asg[node.var] else node.low
         return bool(node.value)
-    pool, hist, bad = [], [], []
+    pool, want, hist, bad = [], [], [], []
     for i in range(steps):
         c = r.random()
         if c < 0.4 or len(pool) < 2:
             e = r.choice(['a', 'b', 'c', '~a', 'a & b', 'b | c', '~(a & c)', '(a | b) & ~c', 'a & ~b', '0', '1'])
             pool.append(OBDD(e, order)); hist.append('build ' + e)
+            want.append([bool(eval(e.replace('~', ' not ').replace('&', ' and ').replace('|', ' or '), {}, dict(a_))) for a_ in asgs])
         elif c < 0.7:
-            x, y = r.choice(pool), r.choice(pool)
+            ix, iy = r.randrange(len(pool)), r.randrange(len(pool))
+            x, y = pool[ix], pool[iy]
             k = r.randrange(5)
-            pool.append([lambda: x & y, lambda: x | y, lambda: x ^ y, lambda: ~x, lambda: x.restrict(r.choice(order), r.choice([0, 1]))][k]())
-            hist.append(['and', 'or', 'xor', 'not', 'restrict'][k])
+            rv, rb = r.choice(order), r.choice([0, 1])
+            pool.append([lambda: x & y, lambda: x | y, lambda: x ^ y, lambda: ~x, lambda: x.restrict(rv, rb)][k]())
+            hist.append(['and', 'or', 'xor', 'not', 'restrict %%s=%%d' %% (rv, rb)][k])
+            tx, ty = want[ix], want[iy]
+            want.append([[p and q for p, q in zip(tx, ty)], [p or q for p, q in zip(tx, ty)], [p != q for p, q in zip(tx, ty)], [not p for p in tx],
+                         [tx[asgs.index(dict(a_, **{rv: bool(rb)}))] for a_ in asgs]][k])
+            del x, y
+            # every result denotes the function its operands' tables determine - also when nodes of dropped diagrams were collected
+            # and their addresses reused in between
+            got = [ev(pool[-1].root, a_) for a_ in asgs]
+            if got != want[-1]:
+                bad.append('step %%d: %%s gives the table %%s, expected %%s (history tail %%s)' %% (i, hist[-1], got, want[-1], hist[-8:]))
+                return bad
         elif c < 0.9:
-            pool.pop(r.randrange(len(pool))); hist.append('drop')
+            j = r.randrange(len(pool)); pool.pop(j); want.pop(j); hist.append('drop')
         else:
             gc.collect(); hist.append('gc')
         if i %% 10 == 0 and len(pool) >= 2:
@@ -290,7 +303,41 @@ def scripted():
                         return bad, n
                     del x, y, z
                     gc.collect()
+    # the complement of f kept alive while f itself is dropped; then a different g is built (its nodes may get the addresses the
+    # nodes of f had) and complemented: ~g must be the complement of g and the same diagram as g ^ 1
+    asgs = [dict(zip(order, bits)) for bits in itertools.product([False, True], repeat=3)]
+
+    def ev(node, asg):
+        while isinstance(node, BDDNonTerminalNode):
+            node = node.high if asg[node.var] else node.low
+        return bool(node.value)
+    for e1 in exprs:
+        for e2 in exprs:
+            for collect in (False, True):
+                n += 1
+                f = OBDD(e1, order)
+                nf = ~f
+                del f
+                if collect:
+                    gc.collect()
+                g = OBDD(e2, order)
+                ng = ~g
+                tg, tn = [ev(g.root, a_) for a_ in asgs], [ev(ng.root, a_) for a_ in asgs]
+                if tn != [not v for v in tg] or ng.root is not (g ^ one()).root:
+                    bad.append('~(%%s) computed while ~(%%s) is alive and (%%s) itself was dropped%%s: table %%s, expected the complement of %%s; same root as g ^ 1: %%s'
+                               %% (e2, e1, e1, ' and collected' if collect else '', tn, tg, ng.root is (g ^ one()).root))
+                    return bad, n
+                del nf, g, ng
     return bad, n
+
+
+def guarded(fn, *a):
+    """an exception of the library in the middle of a legal history is a problem of the history, not of the harness"""
+    try:
+        return fn(*a)
+    except Exception as e:
+        msg = ['the history raised %%s: %%s' %% (type(e).__name__, e)]
+        return (msg, 0) if fn is scripted else msg
 '''
 
 
@@ -302,11 +349,11 @@ def gc_stress(rep, steps):
     problems = []
     seeds = ['%d/gc/%d' % (SEED, j) for j in range(25 if steps <= 300 else 120)]
     for sd in seeds:
-        bad = ns['stress'](sd, steps)
+        bad = ns['guarded'](ns['stress'], sd, steps)
         if bad:
             problems.append((sd, bad[0]))
     # scripted histories: the same function reached by different routes, with intermediate results dropped and collected in between
-    sbad = ns['scripted']()
+    sbad = ns['guarded'](ns['scripted'])
     rep.cov['traces_validated_against_impl'] += sbad[1]
     if sbad[0]:
         problems.append(('scripted', sbad[0][0]))
@@ -315,7 +362,7 @@ def gc_stress(rep, steps):
     rep.obligation('native creation/drop/collect histories (%d x %d steps)' % (len(seeds), steps), 'unsat' if not problems else 'sat', 0, 0,
                    dict(exploration='random histories over a pool of OBDDs with gc.collect()', histories=len(seeds), steps=steps, problems=[p[1] for p in problems[:2]]))
     for sd, msg in problems[:3]:
-        body = GC_SRC % () + ('\nbad = stress(%r, %d)\n' % (sd, steps) if sd != 'scripted' else '\nbad = scripted()[0]\n') + 'print(bad)\nif bad:\n    print("VIOLATION of C16:", bad[0]); sys.exit(1)\nprint("no violation on this input")\n'
+        body = GC_SRC % () + ('\nbad = guarded(stress, %r, %d)\n' % (sd, steps) if sd != 'scripted' else '\nbad = guarded(scripted)[0]\n') + 'print(bad)\nif bad:\n    print("VIOLATION of C16:", bad[0]); sys.exit(1)\nprint("no violation on this input")\n'
         path = write_replay('C16', body)
         ok, out = run_replay(path)
         if ok:
